@@ -14,8 +14,9 @@ map-insert, set-insert, sorted-before-use, lookup-only, commutative-fold; callba
 def safeClass (c : Nat) : Bool := c ≤ 4 || c == 7
 
 /-- loops outside the safe classes, each with its own argument:
-* `Scope.PruneDefinitions` (first-match with break over `aliases`): alias targets are pairwise distinct on every
-  reachable scope, so the match is unique — `Dawgs.C06.Props.prune_alias_choice_unique`;
+* `Scope.PruneDefinitions` (first-match with break over `aliases` and over `parameterAliases`): alias targets are
+  pairwise distinct on every reachable scope (one invariant for the namespace-tagged table that models both maps), so
+  each match is unique — `Dawgs.C06.Props.prune_alias_choice_unique`;
 * `mergeAggregatePredicateParameters` (insert-or-error): only the TEXT of the collision error names the first key met;
   both translators draw parameter names from one shared generator, so the branch is not reachable, and the SQL never
   depends on it (the harness compares error texts across repeated runs);
@@ -59,18 +60,14 @@ theorem generic_shape :
 /-- the full condition: every method touching the shared maps holds a lock of the mapper -/
 def C05_kindmapper_full : Prop := kindMapperMethods.all (fun m => !m.touches || m.holdsLock) = true
 
-/-- **kind_mapper_locked_or_known**: either every method that touches the shared maps holds the mapper's lock (the
-state after hooks/C05-fix.patch), or the mapper is in exactly the state known on the unchanged tree: NO mutex at all,
-the four methods below touch the maps unsynchronised and `Put` (reached from `AssertKinds`, i.e. from translating CREATE
-with an unknown kind) writes them — concurrent translations are then race-free only while no new kind is asserted
-(known finding, see known_findings.json). A method that forgets the lock once the mutex exists satisfies neither side. -/
-theorem kind_mapper_locked_or_known :
-    C05_kindmapper_full ∨
-    ((kindMapperMethods.filter (fun m => m.touches && !m.holdsLock)).map (·.name) = ["MapKind", "MapKindID", "Put", "mapKinds"]
-      ∧ (kindMapperMethods.filter (·.writes)).map (·.name) = ["Put"] ∧ kindMapperMutexFields = []) := by
+/-- **kind_mapper_locked**: `pgutil.InMemoryKindMapper` has a mutex and every method that touches the shared maps or the
+id counter directly takes it (RLock for readers, Lock in `Put`); methods that only call other methods need none.
+(Before the fix the struct had no lock at all and concurrent `AssertKinds` of new kinds ended in `fatal error:
+concurrent map writes`; a method that forgets the lock makes this obligation fail.) -/
+theorem kind_mapper_locked : C05_kindmapper_full ∧ kindMapperMutexFields ≠ [] := by
   unfold C05_kindmapper_full; decide
 
-/-- only `Put` writes the shared fields, before and after the fix -/
+/-- only `Put` writes the shared fields -/
 theorem kind_mapper_single_writer : (kindMapperMethods.filter (·.writes)).map (·.name) = ["Put"] := by decide
 
 end Dawgs.C05.Facts
